@@ -271,7 +271,20 @@ fn scenario(ctx: &Ctx, rep: &mut Report, case_seed: u64, variant: u64, desc: &st
 		}
 		let mut observed: BTreeMap<Key, Option<Vec<u8>>> = BTreeMap::new();
 		for k in &keys {
-			observed.insert(k.clone(), db.get(k.0, &k.1).expect("get"));
+			match db.get(k.0, &k.1) {
+				Ok(v) => {
+					observed.insert(k.clone(), v);
+				},
+				Err(e) => {
+					rep.violation(
+						format!("scenario={};mode=threaded;failure=read_error_after_recovery", ctx.prop),
+						format!("after SIGKILL under load and recovery, get({}, {}) returns an error: {}", k.0, short_bytes(&k.1), e),
+						replay,
+					);
+					std::mem::forget(db);
+					return
+				},
+			}
 		}
 		let mut state: BTreeMap<Key, Option<Vec<u8>>> = keys.iter().map(|k| (k.clone(), base.get(k).cloned().flatten())).collect();
 		let mut differing = state.iter().filter(|(k, v)| observed.get(*k) != Some(*v)).count();
